@@ -266,6 +266,7 @@ def shortcutWhy (o : ConvOut) (linear : Bool) : String :=
     (if o.blocks.any (·.unmodelled) then ["unmodelled"] else []) ++
     (if o.defs.any (timingShortcut o.facts nref) then ["timing"] else []) ++
     (if linear && constShortcut o then ["constmap"] else []) ++
+    (if removedRef o then ["removedref"] else []) ++
     (if o.defs.any (fun d => match d.f with | .condLin .eq [(_, v)] _ => (o.B0 v).isInt | _ => false) then ["uenc"] else []) ++
     (if o.defs.any (fun d => match d.f with | .affine [] _ => false | .condLin .eq [(_, _)] _ => false | f => (resBnd o.B0 f).isFixed) then ["fixedres"] else []))
 
